@@ -46,6 +46,12 @@ def run(res: C.Result):
     results = [None] * ncases
     for j, o in enumerate(outs):
         results[j::16] = o["results"]
+    # the same cases in OTHER interpreter processes with another string-hash seed (the harness pins PYTHONHASHSEED=0 for itself; a user does not):
+    # anything that iterates a set / dict-of-hashes of names in hash order would make the trajectory depend on the interpreter
+    outs2 = C.run_impl_parallel("c06.py", [{"cases": cases[i::16]} for i in range(16)], timeout=3000, env=dict(C.IMPL_ENV, PYTHONHASHSEED=str(1 + res.seed % 4000)))
+    results2 = [None] * ncases
+    for j, o in enumerate(outs2):
+        results2[j::16] = o["results"]
     dist = {"driver": {}, "seed_kind": {"zero": 0, "small": 0, "huge": 0, "numpy_integer": 0}, "steps": 0, "with_forced_moves": 0, "different_seed_differs": 0}
     distinct = set()
     for k, (c, r) in enumerate(zip(cases, results)):
@@ -69,6 +75,11 @@ def run(res: C.Result):
             res.fail(sig, f"{c['driver']}: two runs with seed {c['seed']!r} under different global generator states diverge at step {first} "
                      f"(log equal: {a['log'] == b['log']})", {"input": c, "observed": {"first_diverging_step": first, "a": a["steps"][first] if first is not None else None,
                                                                                   "b": b["steps"][first] if first is not None else None, "trips": r["trips"]}})
+        r2 = results2[k]
+        if "exception" not in r2 and (r2["a"]["steps"] != a["steps"] or r2["a"]["log"] != a["log"]):
+            first2 = next((i for i, (x, y) in enumerate(zip(a["steps"], r2["a"]["steps"])) if x != y), None)
+            res.fail(f"{kind}:not-reproducible-across-interpreters", f"{c['driver']}: the same seed {c['seed']!r} gives another trajectory in an interpreter started with another PYTHONHASHSEED "
+                     f"(first diverging step {first2})", {"input": c, "observed": {"first_diverging_step": first2, "hash_seeds": [0, 1 + res.seed % 4000]}})
         if r["plain_int"] is not None and (r["plain_int"]["steps"] != a["steps"] or r["plain_int"]["log"] != a["log"]):
             res.fail("numpy-integer-seed:differs-from-int", f"{c['driver']}: seed {c['seed']!r} and the equal builtin int give different trajectories", {"input": c})
         if r["ntrips"]:
